@@ -64,6 +64,7 @@ void     vfd_run(void);                                      /* link_layer::run(
 void     vfd_reset_buffers(void);                            /* reset_pdu_buffer() */
 void     vfd_set_state(const uint32_t* f);
 void     vfd_get_state(uint32_t* f);
+void     vfd_set_disc_reason(unsigned reason);   /* raw copy into disconnecting_reason_ (what an earlier connection left behind) */
 int      vfd_set_channel_map(const uint8_t* map5, unsigned hop);    /* channels_.reset(map, hop) */
 void     vfd_set_deferred_bytes(const uint8_t* pdu, unsigned n);    /* content of defered_ll_control_pdu_buffer_ */
 uint64_t vfd_supported_features(void);                       /* public supported_link_layer_features() */
